@@ -157,6 +157,21 @@ fn main() {
             std::thread::sleep(Duration::from_millis(ms));
         }
     }
+    if let Some(list) = beh.get("chmod").and_then(|x| x.as_array()) {
+        use std::os::unix::fs::PermissionsExt;
+        for e in list {
+            if let (Some(p), Some(m)) = (e.get(0).and_then(|x| x.as_str()), e.get(1).and_then(|x| x.as_u64())) {
+                let _ = std::fs::set_permissions(p, std::fs::Permissions::from_mode(m as u32));
+            }
+        }
+    }
+    if let Some(ms) = beh.get("linger_ms").and_then(|x| x.as_u64()).filter(|ms| *ms > 0) {
+        // a background process that inherits both pipes, writes nothing and outlives the helper
+        let _ = std::process::Command::new("sleep")
+            .arg(format!("{}.{:03}", ms / 1000, ms % 1000))
+            .stdin(std::process::Stdio::null())
+            .spawn();
+    }
     if let Some(sig) = beh.get("kill_self").and_then(|x| x.as_i64()) {
         use std::io::Write;
         let _ = std::io::stdout().flush();
